@@ -46,6 +46,23 @@ class EqObj:
         return isinstance(other, EqObj) and self.k % 2 == other.k % 2
 
 
+class EqHashObj:
+    """hashable, equal by value: two distinct nodes of an identity-keyed graph may be equal (points, runtime-built
+    tuples and strings, big ints) - they stay two nodes"""
+
+    def __init__(self, k):
+        self.k = k
+
+    def __eq__(self, other):
+        return isinstance(other, EqHashObj) and other.k // 2 == self.k // 2
+
+    def __hash__(self):
+        return hash(self.k // 2)
+
+    def __repr__(self):
+        return "EqHashObj(%d)" % self.k
+
+
 def build(n, edges, order, mode, unknown, skip_nb):
     """Real DiGraph.  nodes 0..n-1 inserted in `order`; `edges` set of (a, b);
     mode 'int' (make_hashable=None) or 'id'."""
@@ -66,6 +83,13 @@ def build(n, edges, order, mode, unknown, skip_nb):
         objs = [float("nan") for _ in range(n)]
         g = DiGraph(make_hashable=None)
         key = id
+    elif mode == "eqhash":
+        # identity-keyed (default) graph whose nodes are hashable and equal in pairs - instances of a value class, and
+        # tuples / strings / big ints built at run time
+        mk = [EqHashObj, lambda i: tuple([i // 2, "t"]), lambda i: "s%d" % (i // 2), lambda i: 10 ** 30 + i // 2]
+        objs = [mk[(i // 2) % len(mk)](i) for i in range(n)]
+        g = DiGraph()
+        key = id
     else:
         objs = [(EqObj if mode == "eq" else Obj)(i) for i in range(n)]
         g = DiGraph()
@@ -81,7 +105,8 @@ def build(n, edges, order, mode, unknown, skip_nb):
         salt[0] += 1
         return kinds[salt[0] % len(kinds)](xs)
     g.add_nodes(coll([objs[i] for i in order]))
-    extra = n + 100 if mode in ("int", "odd") else (float("nan") if mode == "nan" else (EqObj(-1) if mode == "eq" else Obj(-1)))
+    extra = n + 100 if mode in ("int", "odd") else (float("nan") if mode == "nan" else (
+        EqObj(-1) if mode == "eq" else (EqHashObj(-2) if mode == "eqhash" else Obj(-1))))
     for a in order:
         nb = [objs[b] for (x, b) in sorted(edges) if x == a]
         if not nb and a in skip_nb:
@@ -105,12 +130,19 @@ def observe(g, objs, key, trivial):
     # internal node keys: the objects themselves in hashable mode (looked up by identity when their equality is
     # not reflexive), id() numbers otherwise
     internal = (lambda t: tr[id(t)]) if (objs and isinstance(objs[0], float)) else (lambda t: tr[t])
-    order = [internal(t) for t in list(g._nodes.copy())]
-    nbrs = [[] for _ in objs]
-    for t, ns in g._neighbors.items():
-        nbrs[internal(t)] = [internal(x) for x in list(ns)]
     try:
-        out = [[tr[key(o)] for o in c] for c in g.sccs(trivial)]
+        order = [internal(t) for t in list(g._nodes.copy())]
+        nbrs = [[] for _ in objs]
+        for t, ns in g._neighbors.items():
+            nbrs[internal(t)] = [internal(x) for x in list(ns)]
+    except (KeyError, TypeError, AttributeError):
+        # the object's internals are not keyed the way make_hashable says (or are not there at all): the exact emission
+        # sequence cannot be asked of the model - a broken correspondence; the components are still judged by the oracle
+        order, nbrs = None, None
+    try:
+        out = []
+        for c in g.sccs(trivial):
+            out.append([tr[key(o)] for o in c])
         err = None
     except Exception as e:  # noqa: BLE001
         out = None
@@ -150,7 +182,7 @@ def cases(ctx):
                 ctx.rng.shuffle(o)
                 orders.append(o)
             for order in orders[:1 if (n == 4 or ctx.quick() and n == 3) else 2]:
-                mode = ("int", "id", "eq", "nan", "odd")[(mask + n) % 5]
+                mode = ("int", "id", "eq", "nan", "odd", "eqhash")[(mask + n) % 6]
                 yield n, edges, order, mode, (mask % 5 == 0), frozenset(range(n)) if mask % 3 == 0 else frozenset()
     for _ in range(200 if ctx.quick() else 4000):
         n = ctx.rng.randint(2, 40)
@@ -158,7 +190,7 @@ def cases(ctx):
         edges = frozenset((a, b) for a in range(n) for b in range(n) if ctx.rng.random() < dens)
         order = list(range(n))
         ctx.rng.shuffle(order)
-        yield n, edges, order, ctx.rng.choice(["int", "id", "eq", "nan", "odd"]), ctx.rng.random() < 0.3, \
+        yield n, edges, order, ctx.rng.choice(["int", "id", "eq", "nan", "odd", "eqhash"]), ctx.rng.random() < 0.3, \
             frozenset(range(n)) if ctx.rng.random() < 0.4 else frozenset()
 
 
@@ -184,7 +216,7 @@ def run(ctx):
                                   {"n": n, "edges": sorted(edges), "insert_order": order, "mode": mode, "first": trivial,
                                    "second_result": out2, "error": err2}, signature="second-enumeration")
             todo.append((n, edges, order, mode, unknown, sorted(skip), trivial, o, nbrs, out, err))
-            queries.append({"op": "sccs", "order": o, "nbrs": nbrs, "trivial": trivial})
+            queries.append({"op": "sccs", "order": o, "nbrs": nbrs, "trivial": trivial} if o is not None else {"op": "noop"})
         if len(keep) > 2000:
             keep = []
     answers = ctx.driver.batch(queries)
@@ -205,6 +237,10 @@ def run(ctx):
         if len(got) != len(set(got)) or set(got) != want or sum(len(c) for c in out) != sum(len(c) for c in want):
             ctx.violation("sccs(trivial=%r) = %r, expected components %r" % (trivial, out, sorted(map(sorted, want))),
                           case, signature="wrong-components")
+            continue
+        if o is None:
+            ctx.drift("digraph.internals", "the graph object's node and neighbour tables are not keyed by make_hashable(node) "
+                      "(mode %s): the model cannot be asked for the emission sequence" % mode, case)
             continue
         # the theorems' hypotheses (`order.Nodup`, neighbour lists inside the node set) must hold of the real object
         if len(set(o)) != len(o) or any(m not in set(o) for x in o for m in nbrs[x]) or \
